@@ -487,8 +487,106 @@ fn close_while_throttled(r: &mut Rng, res: &mut CaseResult) {
     res.sample = Some(json!({"scenario": "Connection::close while publishes accepted earlier are still parked", "bound": bound, "high_water": high, "publishers": npub, "offered_each": offer, "transport_stalled": stalled}));
 }
 
+/// One publisher that is as fast as it can be (the body is built once, the loop does nothing
+/// but publish) against a transport that accepts nothing: it has to block after about the
+/// high-water mark plus what the in-memory channel holds, however fast it is. (In an
+/// optimised build the publisher can be faster than the I/O thread takes its messages.)
+fn fast_publisher(r: &mut Rng, res: &mut CaseResult) {
+    let high = *r.pick(&[1usize << 20, 64 << 10]);
+    let bound = *r.pick(&[16usize, 64]);
+    let body_len = *r.pick(&[1usize << 20, 100_000, 1000]);
+    let mut reflex = Reflex::default();
+    reflex.tune = (2047, 131072, 0);
+    let (mock, h) = new_mock(reflex);
+    let tuning = ConnectionTuning::default().mem_channel_bound(bound).buffered_writes_high_water(high).buffered_writes_low_water(0);
+    let open = run::spawn("open", move || Connection::insecure_open_stream(mock, session::default_opts(), tuning));
+    let mut conn = match open.join(W) {
+        J::Done(Ok(c)) => c,
+        _ => {
+            res.inconclusive("handshake");
+            return;
+        }
+    };
+    let ch = match conn.open_channel(None) {
+        Ok(c) => c,
+        Err(e) => {
+            res.inconclusive(format!("open_channel: {}", ek(&e)));
+            return;
+        }
+    };
+    h.with(|st| st.budget = 0);
+    let offered_total: usize = 768 << 20;
+    let n = offered_total / body_len.max(1);
+    let accepted = Arc::new(AtomicU64::new(0));
+    let acc2 = accepted.clone();
+    let stop = Arc::new(AtomicBool::new(false));
+    let stop2 = stop.clone();
+    let t = run::spawn("fast-publisher", move || {
+        let body = vec![0x42u8; body_len];
+        for _ in 0..n {
+            if stop2.load(Ordering::Relaxed) {
+                break;
+            }
+            if ch.basic_publish("", amiquip::Publish::new(&body, "fast")).is_err() {
+                break;
+            }
+            acc2.fetch_add(1, Ordering::Relaxed);
+        }
+        std::mem::forget(ch);
+    });
+    // the publisher must stop making progress long before it has been through its offer
+    let mut last = u64::MAX;
+    let mut stable_since = Instant::now();
+    let deadline = Instant::now() + Duration::from_secs(12);
+    let mut blocked = false;
+    while Instant::now() < deadline {
+        std::thread::sleep(Duration::from_millis(20));
+        let now = accepted.load(Ordering::Relaxed);
+        if now != last {
+            last = now;
+            stable_since = Instant::now();
+        } else if stable_since.elapsed() > Duration::from_millis(300) {
+            blocked = true;
+            break;
+        }
+        if now as usize >= n {
+            break;
+        }
+    }
+    let acc_bytes = accepted.load(Ordering::Relaxed) as usize * body_len;
+    res.obs("fast_publisher_accepted_mib", (acc_bytes >> 20) as u64);
+    // generous: high-water + the channel's worth of pieces + one batch of overshoot
+    let allowed = high + (bound + 4) * 140_000 + 8 * body_len + (8 << 20);
+    if acc_bytes > allowed {
+        res.violate(
+            "publishers_never_blocked",
+            format!("high-water {} bytes, channel bound {}, bodies of {} bytes: {} MiB were accepted from one fast publisher while the transport accepted nothing (blocked: {}); allowed about {} MiB", high, bound, body_len, acc_bytes >> 20, blocked, allowed >> 20),
+        );
+    }
+    stop.store(true, Ordering::Relaxed);
+    // release everything so that the threads end
+    h.grant(usize::MAX);
+    let _ = t.join(W * 3);
+    let tc = run::spawn("close", move || conn.close());
+    let _ = tc.join(W * 3);
+    let _ = run::take_panics();
+    res.sig = crate::rng::fnv_str(&format!("fastpub{}{}{}", high, bound, body_len));
+    res.sample = Some(json!({"scenario": "one tight-loop publisher against a stalled transport", "high_water": high, "bound": bound, "body": body_len}));
+}
+
 pub fn run(rc: &mut RunCtx) {
     let seed = rc.seed;
+    for i in 0..rc.n(4, 16) {
+        let id = format!("fast-publisher:{}", i);
+        if !rc.mine(&id) {
+            continue;
+        }
+        rc.begin(&id);
+        let mut res = CaseResult::new(id);
+        let mut r = Rng::for_case(seed, 18, 6_000_000 + i);
+        fast_publisher(&mut r, &mut res);
+        rc.end(res);
+    }
     for i in 0..rc.n(64, 1500) {
         let id = format!("close-throttled:{}", i);
         if !rc.mine(&id) {
